@@ -332,7 +332,7 @@ bool Xml::Private::parse(const char* data, Element& element)
         pos.pos = end + 2;
         break;
       }
-      pos.pos = end + 1;
+      pos.pos = *end == '?' ? end + 1 : end;
       skipSpace();
     }
     skipSpace();
